@@ -23,7 +23,8 @@ namespace Varpulis.Expr
 
 /-- an `f64`: NaN, ±∞, or the finite value `(-1)^neg · m · 2^e` (`m = 0`: ±0.0) -/
 inductive F where
-  | nan
+  /-- NaN; only its sign bit is kept (the payload is never observable here) -/
+  | nan (neg : Bool)
   | inf (neg : Bool)
   | fin (neg : Bool) (m : Nat) (e : Int)
   deriving DecidableEq, Repr, Inhabited
@@ -72,13 +73,13 @@ def Ordering.rev : Ordering → Ordering
 namespace F
 
 def isNan : F → Bool
-  | .nan => true | _ => false
+  | .nan _ => true | _ => false
 
 def snum (neg : Bool) (m : Nat) : Int := if neg then -(m : Int) else (m : Int)
 
 /-- the value denoted (none for NaN) -/
 def ext : F → Option Ext
-  | .nan => none
+  | .nan _ => none
   | .inf true => some .ninf
   | .inf false => some .pinf
   | .fin s m e => some (.fin ⟨snum s m, e⟩)
@@ -106,12 +107,12 @@ def floatEq (a b : F) : Bool :=
   else eqIeee a b
 
 def neg : F → F
-  | .nan => .nan
+  | .nan s => .nan (!s)
   | .inf s => .inf (!s)
   | .fin s m e => .fin (!s) m e
 
 def abs : F → F
-  | .nan => .nan
+  | .nan _ => .nan false
   | .inf _ => .inf false
   | .fin _ m e => .fin false m e
 
@@ -159,7 +160,7 @@ def truncInt (s : Bool) (m : Nat) (e : Int) : Int :=
 
 /-- Rust `f as i64`: NaN → 0, saturating, toward zero -/
 def toI64 : F → Int64
-  | .nan => 0
+  | .nan _ => 0
   | .inf true => Int64.minValue
   | .inf false => Int64.maxValue
   | .fin s m e => sat (truncInt s m e)
@@ -193,6 +194,19 @@ def min (a b : F) : F :=
 def max (a b : F) : F :=
   if a.isNan then b else if b.isNan then a else if lt a b then b else a
 
+/-- position of the class of a float in `f64::total_cmp`: -NaN < -inf < finite < +inf < +NaN -/
+def cls : F → Nat
+  | .nan true => 0 | .inf true => 1 | .fin _ _ _ => 2 | .inf false => 3 | .nan false => 4
+
+/-- `f64::total_cmp` up to NaN payloads: by class, finite values by value, `-0.0 < +0.0` -/
+def totalCmp (a b : F) : Ordering :=
+  match a, b with
+  | .fin s1 m1 e1, .fin s2 m2 e2 =>
+    match Dy.cmp ⟨snum s1 m1, e1⟩ ⟨snum s2 m2, e2⟩ with
+    | .eq => icmp (if s1 then 0 else 1) (if s2 then 0 else 1)
+    | o => o
+  | _, _ => icmp (cls a) (cls b)
+
 def isInf : F → Bool
   | .inf _ => true | _ => false
 
@@ -215,6 +229,12 @@ structure FOps where
   powf : F → F → F
   /-- `sqrt`, `ln`, `log10`, `exp`, `sin`, `cos`, `tan` by name -/
   fn1 : String → F → F
+  /-- `str::to_lowercase` / `to_uppercase` (full Unicode case mapping) -/
+  lower : String → String
+  upper : String → String
+  /-- `Display` of an `f64` (shortest round-trip decimal) and of a timestamp (chrono) -/
+  fmtFloat : F → String
+  fmtTs : Int64 → String
 
 /-! ## i64 -/
 
@@ -467,6 +487,15 @@ def cmpVals (md : Mode) (op : CmpOp) (l r : Value) : Res :=
       if op == .lt || op == .gt then .val (.bool (op.holds (F.cmp a (F.ofI64 b)))) else .none
   | _, _ => .none
 
+def strCmp (a b : String) : Ordering := if a < b then .lt else if a == b then .eq else .gt
+
+/-- the `Lt/Le/Gt/Ge` arms of `eval_expr_with_functions`: the numeric arms plus Str × Str (bytewise
+= code-point order) -/
+def cmpValsExpr (md : Mode) (op : CmpOp) (l r : Value) : Res :=
+  match md, l, r with
+  | .fixed, .str a, .str b => .val (.bool (op.holds (some (strCmp a b))))
+  | _, _, _ => cmpVals md op l r
+
 /-- sase.rs `values_compare` (strings compare bytewise; only the numeric arms matter for C08) -/
 def saseCompare (md : Mode) (l r : Value) : Option Ordering :=
   match l, r with
@@ -480,7 +509,7 @@ def saseCompare (md : Mode) (l r : Value) : Option Ordering :=
     match md with
     | .fixed => (cmpIntFloat b a).map Ordering.rev
     | .old => F.cmp a (F.ofI64 b)
-  | .str a, .str b => some (if a < b then .lt else if a == b then .eq else .gt)
+  | .str a, .str b => some (strCmp a b)
   | _, _ => none
 
 /-- sase.rs `compare_values` for `Lt/Le/Gt/Ge` -/
@@ -567,10 +596,10 @@ def binop (fo : FOps) (md : Mode) (op : BinOp) (l r : Value) : Res :=
     | _, _ => .none
   | .eq => .val (.bool (Value.eq l r))
   | .ne => .val (.bool (!Value.eq l r))
-  | .lt => cmpVals md .lt l r
-  | .le => cmpVals md .le l r
-  | .gt => cmpVals md .gt l r
-  | .ge => cmpVals md .ge l r
+  | .lt => cmpValsExpr md .lt l r
+  | .le => cmpValsExpr md .le l r
+  | .gt => cmpValsExpr md .gt l r
+  | .ge => cmpValsExpr md .ge l r
   | .inn =>
     match l, r with
     | v, .arr xs => .val (.bool (containsVal xs v))
@@ -859,6 +888,114 @@ def bIs (p : Value → Bool) : List Value → Res
   | v :: _ => .val (.bool (p v))
   | _ => .none
 
+/-! #### strings, formatting, sorting -/
+
+/-- Unicode `White_Space` (what `str::trim` strips) -/
+def isWs (c : Char) : Bool :=
+  let n := c.toNat
+  (9 ≤ n && n ≤ 13) || n == 32 || n == 0x85 || n == 0xA0 || n == 0x1680 || (0x2000 ≤ n && n ≤ 0x200A) ||
+    n == 0x2028 || n == 0x2029 || n == 0x202F || n == 0x205F || n == 0x3000
+
+def trimChars (cs : List Char) : List Char :=
+  ((cs.dropWhile isWs).reverse.dropWhile isWs).reverse
+
+/-- `str::split(sep)` for a non-empty separator: leftmost non-overlapping matches -/
+def splitGo (sep : List Char) : Nat → List Char → List Char → List (List Char)
+  | 0, _, cur => [cur.reverse]
+  | _ + 1, [], cur => [cur.reverse]
+  | fuel + 1, c :: rest, cur =>
+    if sep.isPrefixOf (c :: rest) then cur.reverse :: splitGo sep fuel ((c :: rest).drop sep.length) []
+    else splitGo sep fuel rest (c :: cur)
+
+/-- `str::split(sep)`; the empty separator matches at every boundary, ends included -/
+def splitChars (s sep : List Char) : List (List Char) :=
+  if sep.isEmpty then [[]] ++ s.map (fun c => [c]) ++ [[]]
+  else splitGo sep (s.length + 1) s []
+
+def joinChars (sep : List Char) : List (List Char) → List Char
+  | [] => []
+  | [x] => x
+  | x :: xs => x ++ sep ++ joinChars sep xs
+
+/-- `Display for Value::Duration` -/
+def showDur (n : Nat) : String :=
+  let secs := n / 1000000000
+  if secs ≥ 86400 then toString (secs / 86400) ++ "d"
+  else if secs ≥ 3600 then toString (secs / 3600) ++ "h"
+  else if secs ≥ 60 then toString (secs / 60) ++ "m"
+  else if secs > 0 then toString secs ++ "s"
+  else if n / 1000000 > 0 then toString (n / 1000000) ++ "ms"
+  else toString (n / 1000) ++ "us"
+
+mutual
+/-- `impl Display for Value` (`format!("{}", v)`) -/
+def Value.show (fo : FOps) : Value → String
+  | .null => "null"
+  | .bool b => if b then "true" else "false"
+  | .int n => toString n.toInt
+  | .float f => fo.fmtFloat f
+  | .str s => "\"" ++ s ++ "\""
+  | .ts n => fo.fmtTs n
+  | .dur n => showDur n
+  | .arr xs => "[" ++ Value.showList fo xs ++ "]"
+  | .map kvs => "{" ++ Value.showMap fo kvs ++ "}"
+def Value.showList (fo : FOps) : List Value → String
+  | [] => ""
+  | [x] => Value.show fo x
+  | x :: y :: xs => Value.show fo x ++ ", " ++ Value.showList fo (y :: xs)
+def Value.showMap (fo : FOps) : List (String × Value) → String
+  | [] => ""
+  | [(k, v)] => k ++ ": " ++ Value.show fo v
+  | (k, v) :: p :: rest => k ++ ": " ++ Value.show fo v ++ ", " ++ Value.showMap fo (p :: rest)
+end
+
+/-- the kind rank of the repaired `sort` comparator -/
+def sortKind : Value → Nat
+  | .int _ => 0 | .float _ => 1 | .str _ => 2 | _ => 3
+
+/-- the comparator of `sort` (after 8cbc5cc): a total preorder -/
+def sortCmp (a b : Value) : Ordering :=
+  match a, b with
+  | .int x, .int y => i64cmp x y
+  | .float x, .float y => F.totalCmp x y
+  | .str x, .str y => strCmp x y
+  | _, _ => icmp (sortKind a) (sortKind b)
+
+/-- insert behind every element that is not greater (stable) -/
+def insertBy (x : Value) : List Value → List Value
+  | [] => [x]
+  | y :: ys => if sortCmp x y == .lt then x :: y :: ys else y :: insertBy x ys
+
+/-- `slice::sort_by` is a stable sort; for a total preorder every stable sort yields this list -/
+def stableSort (xs : List Value) : List Value := xs.foldl (fun acc x => insertBy x acc) []
+
+def bSort : List Value → Res
+  | .arr xs :: _ => .val (.arr (stableSort xs))
+  | _ => .none
+def bToString (fo : FOps) : List Value → Res
+  | v :: _ => .val (.str (Value.show fo v))
+  | _ => .none
+def bTrim : List Value → Res
+  | .str s :: _ => .val (.str (String.ofList (trimChars s.toList)))
+  | _ => .none
+def bLower (fo : FOps) : List Value → Res
+  | .str s :: _ => .val (.str (fo.lower s))
+  | _ => .none
+def bUpper (fo : FOps) : List Value → Res
+  | .str s :: _ => .val (.str (fo.upper s))
+  | _ => .none
+def bSplit : List Value → Res
+  | [.str s, .str sep] => .val (.arr ((splitChars s.toList sep.toList).map fun p => .str (String.ofList p)))
+  | _ => .none
+def bJoin (fo : FOps) : List Value → Res
+  | [.arr xs, .str sep] => .val (.str (sep.intercalate (xs.map (Value.show fo))))
+  | _ => .none
+/-- `str::replace(from, to)` = split at `from`, join with `to` (also for the empty pattern) -/
+def bReplace : List Value → Res
+  | [.str s, .str from', .str to] =>
+    .val (.str (String.ofList (joinChars to.toList (splitChars s.toList from'.toList))))
+  | _ => .none
+
 /-- the modelled subset of `eval_builtin_function` (names outside it are listed in
 `unmodelledBuiltins` and are never compared by the correspondence) -/
 def builtinTable (fo : FOps) (md : Mode) : List (String × (List Value → Res)) :=
@@ -875,7 +1012,10 @@ def builtinTable (fo : FOps) (md : Mode) : List (String × (List Value → Res))
    ("is_string", bIs fun v => match v with | .str _ => true | _ => false),
    ("is_bool", bIs fun v => match v with | .bool _ => true | _ => false),
    ("is_array", bIs fun v => match v with | .arr _ => true | _ => false),
-   ("is_map", bIs fun v => match v with | .map _ => true | _ => false)]
+   ("is_map", bIs fun v => match v with | .map _ => true | _ => false),
+   ("sort", bSort), ("to_string", bToString fo), ("trim", bTrim), ("lower", bLower fo),
+   ("lowercase", bLower fo), ("upper", bUpper fo), ("uppercase", bUpper fo), ("split", bSplit),
+   ("join", bJoin fo), ("replace", bReplace)]
 
 /-- `eval_builtin_function` -/
 def builtin (fo : FOps) (md : Mode) (name : String) (args : List Value) : Res :=
@@ -885,9 +1025,111 @@ def builtin (fo : FOps) (md : Mode) (name : String) (args : List Value) : Res :=
 
 /-- built-ins of `eval_builtin_function` that the model does not cover (float formatting, Unicode
 case mapping, float parsing, range sizes, sort's comparator) -/
-def unmodelledBuiltins : List String :=
-  ["sort", "range", "to_string", "trim", "lower",
-   "lowercase", "upper", "uppercase", "split", "join", "replace"]
+def unmodelledBuiltins : List String := ["range"]
+
+/-! ### pattern expressions (`.pattern(name: events => …)`) -/
+
+
+/-- `filter_map` of the numbers of an array, then `fold(INFINITY, f64::min)` -/
+def fminAll (fs : List F) : F := fs.foldl F.min (.inf false)
+def fmaxAll (fs : List F) : F := fs.foldl F.max (.inf true)
+
+/-- the array aggregates shared by the function form `avg(xs)` and the method form `xs.avg()` -/
+def patAgg (fo : FOps) (name : String) (xs : List Value) : Option Res :=
+  let ns := numsOf xs
+  match name with
+  | "sum" => some (.val (.float (fsum fo ns)))
+  | "avg" =>
+    some (if ns.isEmpty then .val (.float F.zero)
+          else .val (.float (fo.div (fsum fo ns) (F.ofNat ns.length))))
+  | "min" => some (if (fminAll ns).isInf then .none else .val (.float (fminAll ns)))
+  | "max" => some (if (fmaxAll ns).isInf then .none else .val (.float (fmaxAll ns)))
+  | "first" => some (Res.ofOption xs.head?)
+  | "last" => some (Res.ofOption xs.getLast?)
+  | _ => none
+
+def pairs : List Value → List Value
+  | a :: b :: rest => .arr [a, b] :: pairs (b :: rest)
+  | _ => []
+
+def flattenVals (xs : List Value) : List Value :=
+  xs.flatMap fun v => match v with | .arr ys => ys | v => [v]
+
+def resVal? : Res → Option Value
+  | .val v => some v
+  | _ => none
+
+def paramOr (ps : List String) : String := ps.headD "x"
+
+mutual
+/-- `eval_pattern_expr` (`.pattern` lambdas); `vars` = `pattern_vars`, newest binding first -/
+def evalPat (fo : FOps) (md : Mode) : List (String × Value) → Expr → Res
+  | vars, .block names vals res => evalPat fo md (evalPatLets fo md vars names vals) res
+  | vars, .lambda _ body => evalPat fo md vars body
+  | vars, .ident x => Res.ofOption (vars.lookup x)
+  | _, .int n => .val (.int n)
+  | _, .float f => .val (.float f)
+  | _, .bool b => .val (.bool b)
+  | _, .str s => .val (.str s)
+  | vars, .bin op l r =>
+    (evalPat fo md vars l).bind fun lv => (evalPat fo md vars r).bind fun rv => patternBinop md op lv rv
+  | vars, .member recv m =>
+    (evalPat fo md vars recv).bind fun rv =>
+      match rv with
+      | .map kvs => Res.ofOption (kvs.lookup m)
+      | _ => .none
+  | vars, .call (.member recv m) args =>
+    (evalPat fo md vars recv).bind fun rv =>
+      match rv with
+      | .arr xs =>
+        match m, args with
+        | "filter", .lambda ps body :: _ =>
+          .val (.arr (xs.filter fun item =>
+            match evalPat fo md ((paramOr ps, item) :: vars) body with
+            | .val (.bool true) => true
+            | _ => false))
+        | "map", .lambda ps body :: _ =>
+          .val (.arr (xs.filterMap fun item =>
+            match ps with
+            | p0 :: p1 :: _ =>
+              (match item with
+               | .arr (a :: b :: _) => resVal? (evalPat fo md ((p1, b) :: (p0, a) :: vars) body)
+               | _ => Option.none)
+            | _ => resVal? (evalPat fo md ((paramOr ps, item) :: vars) body)))
+        | "flatten", _ => .val (.arr (flattenVals xs))
+        | "len", _ => .val (.int (Int64.ofNat xs.length))
+        | "count", _ => .val (.int (Int64.ofNat xs.length))
+        | "sliding_pairs", _ => .val (.arr (pairs xs))
+        | name, _ =>
+          match patAgg fo name xs with
+          | some r => r
+          | Option.none => .none
+      | _ => .none
+  | vars, .call (.ident f) (a :: _) =>
+    match evalPat fo md vars a with
+    | .val (.arr xs) =>
+      if f == "len" then .val (.int (Int64.ofNat xs.length))
+      else if f == "variance" then
+        let ns := numsOf xs
+        if ns.isEmpty then .val (.float F.zero)
+        else
+          let mean := fo.div (fsum fo ns) (F.ofNat ns.length)
+          .val (.float (fo.div (fsum fo (ns.map fun x => fo.powi (fo.sub x mean) 2)) (F.ofNat ns.length)))
+      else
+        match patAgg fo f xs with
+        | some r => r
+        | Option.none => .none
+    | _ => .none
+  | _, _ => .none
+/-- the `let` bindings of a block expression, in order; a binding without a value is skipped -/
+def evalPatLets (fo : FOps) (md : Mode) : List (String × Value) → List String → List Expr → List (String × Value)
+  | vars, n :: ns, v :: vs =>
+    match evalPat fo md vars v with
+    | .val x => evalPatLets fo md ((n, x) :: vars) ns vs
+    | _ => evalPatLets fo md vars ns vs
+  | vars, _, _ => vars
+end
+
 
 /-! ### the evaluator -/
 
